@@ -1,8 +1,9 @@
 import Driver.OpsCore
 import Driver.OpsAlloc
+import Driver.OpsSym
 namespace Driver
 
-def handlers : List Handler := [handleCore, handleAlloc]
+def handlers : List Handler := [handleCore, handleAlloc, handleSym]
 
 def step (st : St) (line : String) : St × String :=
   match (line.trimAscii.toString.splitOn " ").filter (· ≠ "") with
